@@ -24,6 +24,8 @@ def decoder_vs_schema(res, env, tier):
         return
     data = json.load(open(probes))
     root = os.path.dirname(os.path.dirname(repo_src().rstrip("/")))       # <repo>/hugr-py/src -> <repo>
+    if not os.path.isdir(os.path.join(root, "specification")):
+        root = "/repo"          # a scratch copy of the sources only: the published files are the repository's
     validators = {}
     for cfg, fn in (("strict", f"hugr_schema_strict_{data['version']}.json"), ("lax", f"hugr_schema_{data['version']}.json")):
         path = os.path.join(root, "specification", "schema", fn)
@@ -33,6 +35,19 @@ def decoder_vs_schema(res, env, tier):
         sch = dict(json.load(open(path)))
         sch["$ref"] = "#/$defs/SerialHugr"
         validators[cfg] = jsonschema.Draft202012Validator(sch)
+    # same fields: every field is read from exactly the one key the schema lists for it
+    ap = data.get("alias_problems", [])
+    res.ground.append({"check": "every field of every serialization model is read from exactly the key the generated schema lists (no further validation aliases, no populate_by_name)",
+                       "ok": not ap, "fields": data.get("fields_checked", 0), "problems": ap[:5]})
+    for k, pr in enumerate(ap[:3]):
+        fn = os.path.join(d, f"alias_{k}.py")
+        open(fn, "w").write(replay_header("C17", f"{pr['model']}.{pr['field']}: the decoder reads {pr['decoder_reads']}, the schema lists {pr['schema_lists']!r}") + """
+from ground.c17_decoder import accepted_keys
+n, problems = accepted_keys()
+print(n, "fields;", problems)
+sys.exit(1 if problems else 0)
+""")
+        res.violations.append({"clause": f"{pr['model']}.{pr['field']}: the decoder also reads {pr['decoder_reads'][1:]} which the published schema does not list", "replay": fn, "confirmed": True})
     listed = {k["id"]: k for k in load_known_findings("C17")}
     counts, disagreements, known_hits = {}, [], {}
     for cfg, di, m, dec_ok in data["probes"]:
@@ -79,6 +94,7 @@ try:
 except Exception as e:
     dec = False
 root = os.path.dirname(os.path.dirname(os.environ.get("VERIF_REPO_SRC", "/repo/hugr-py/src").rstrip("/")))
+root = root if os.path.isdir(os.path.join(root, "specification")) else "/repo"
 fn = os.path.join(root, "specification", "schema", ("hugr_schema_strict_" if cfg == "strict" else "hugr_schema_") + SerialHugr.get_version() + ".json")
 code = "import json,sys,jsonschema; s=dict(json.load(open(sys.argv[1]))); s['$ref']='#/$defs/SerialHugr'; print(jsonschema.Draft202012Validator(s).is_valid(json.loads(sys.stdin.read())))"
 sch = subprocess.run(["python3-vt", "-c", code, fn], input=json.dumps(doc), capture_output=True, text=True).stdout.strip() == "True"
